@@ -378,7 +378,7 @@ example : plainTy C01.exTy = true := by decide
 
 /-- … the marshaller accepts the example value, and the theorem gives plainness of what it returns. -/
 example : ∃ m, mar C01.exEnv (pyLeaves C01.exEnv) 12 C01.exTy C01.exVal = .ok m ∧ jsonPlain m = true := by
-  obtain ⟨m, hm, _⟩ := C01.roundtrip_core C01.exEnv 0 (by decide) C01.exEnv_noEnums 12 C01.exTy C01.exVal
+  obtain ⟨m, hm, _⟩ := C01.roundtrip_core C01.exEnv 0 (by decide) (enumWF_of_noEnums _ C01.exEnv_noEnums) 12 C01.exTy C01.exVal
     (by decide) (by decide)
   exact ⟨m, hm, marshal_plain_py C01.exEnv 0 (by decide) 12 _ _ m (by decide) hm⟩
 
